@@ -196,6 +196,25 @@ def cull_rules(rep, prog):
         r = rn.reachable(dst, removed_edges=(set(back_e) | set(front_e)) - set(none_e), removed_blocks=set(fills), unwind=False)
         if any(h in r for h in heads) or any(x in r for x in rets):
             skip = True
+    if skip:
+        # which branches open the by-pass? a test of some quantity against exactly 0.0 (a degenerate triangle covers no pixel centre)
+        # leaves every image unchanged; anything else (a threshold, a flag) drops triangles that have pixels
+        guards = []
+        for bi_, blk_ in enumerate(rn.blocks):
+            t_ = blk_["term"]
+            if t_["k"] != "SwitchInt":
+                continue
+            succ = [tg for _v, tg in t_["targets"]] + [t_["otherwise"]]
+            byp = [s_ for s_ in succ if any(h in rn.reachable(s_, removed_blocks=set(fills), unwind=False) for h in heads) and not
+                   any(f in rn.reachable(s_, removed_blocks=set(heads), unwind=False) for f in fills)]
+            if byp and len(byp) < len(succ):
+                guards.append(T.strip(sl.operand(t_["discr"]), sites=True, refs=True))
+        is_fc_guard = lambda g: T.contains(g, lambda q: q[0] == "field" and q[2] == "Context.face_cull") or T.contains(g, lambda q: q[0] == "call" and "is_backface" in q[1])  # noqa: E731
+        exact_zero = lambda g: g[0] == "bin" and g[1] in ("Eq", "Ne") and (("const", "f32", 0.0) in (g[2], g[3]))  # noqa: E731
+        other = [g for g in guards if not is_fc_guard(g) and not exact_zero(g)]
+        if guards and not other:
+            rep.notes.append("C07.F3: triangles are skipped on an exact-zero test only (%s): no pixel centre is lost" % [T.show(g)[:60] for g in guards])
+            skip = False
     rep.inst("C07.F3", "with face_cull = None every path from the cull decision to the next triangle passes tri_fill: %s" % (not skip), config=cfg)
     if skip:
         rep.violate("C07.F3", "F3|None/dropped", rn.where(),
